@@ -361,12 +361,16 @@ func TestVerif_C41(t *testing.T) {
 			ctxNames = append(ctxNames, cx.name)
 		}
 		// bounds: (full alphabet depth, core alphabet depth)
-		docFull, docCore := vx.Pick(c, 3, 4), vx.Pick(c, 4, 5)
-		fragFull, fragCore := vx.Pick(c, 2, 3), vx.Pick(c, 3, 4)
+		docFull, docCore := 3, 4
+		fragFull, fragCore := 2, 3
+		deep := ""
+		if !c.Quick() {
+			deep = " thorough adds, in this order and as far as the deadline allows: fragment-full-3 (every concatenation of exactly 3 items of the full alphabet under every context) and document-core-5 (exactly 5 items of the core alphabet)."
+		}
 		c.Rule(fmt.Sprintf("document: Parse of every concatenation of <= %d items of the full alphabet (%d items: %q) and of every concatenation of %d..%d items of the core alphabet (the first %d items); scripting on, and also off when the input mentions noscript. "+
-			"fragment: ParseFragment with each of the %d contexts %q of every concatenation of <= %d items of the full alphabet and of %d..%d items of the core alphabet. "+
+			"fragment: ParseFragment with each of the %d contexts %q of every concatenation of <= %d items of the full alphabet and of %d..%d items of the core alphabet.%s "+
 			"Every returned tree is walked completely (link consistency, single reachability, node types) and rendered. non-trivial = the tree has more than the html/head/body skeleton or a text node (document), at least one element (fragment)",
-			docFull, len(full), full, docFull+1, docCore, len(c41Core), len(c41Contexts), ctxNames, fragFull, fragFull+1, fragCore))
+			docFull, len(full), full, docFull+1, docCore, len(c41Core), len(c41Contexts), ctxNames, fragFull, fragFull+1, fragCore, deep))
 		c.Assume("non-termination is detected only by the shard timeout (no per-case watchdog: it could not be made free of false alarms under CPU contention); inputs outside the item language, reader errors and nesting beyond the documented 512-element limit are not covered; a non-nil error from Parse on these inputs is counted as an internal panic because parser.parse recovers panics into errors")
 
 		vx.Enumerate(c, "fragment-full", vx.Opts{}, func(yield func(c41Case) bool) {
@@ -384,5 +388,13 @@ func TestVerif_C41(t *testing.T) {
 		vx.Enumerate(c, "document-core", vx.Opts{}, func(yield func(c41Case) bool) {
 			vx.Strings(idx(len(c41Core)), docFull+1, docCore, func(s []int) bool { return yield(c41Case{"core", s}) })
 		}, func(w *vx.W, x c41Case) { c41Document(w, x.input()) })
+		if !c.Quick() {
+			vx.Enumerate(c, "fragment-full-3", vx.Opts{}, func(yield func(c41Case) bool) {
+				vx.Strings(idx(len(full)), 3, 3, func(s []int) bool { return yield(c41Case{"full", s}) })
+			}, func(w *vx.W, x c41Case) { c41Fragment(w, x.input(), c41Contexts) })
+			vx.Enumerate(c, "document-core-5", vx.Opts{}, func(yield func(c41Case) bool) {
+				vx.Strings(idx(len(c41Core)), 5, 5, func(s []int) bool { return yield(c41Case{"core", s}) })
+			}, func(w *vx.W, x c41Case) { c41Document(w, x.input()) })
+		}
 	})
 }
